@@ -945,8 +945,14 @@ def _variable_derivative(o, ctx, rho):
         if tn == "Variable":
             e, label = v.ufl_operands
 
-            def ov(c, r, e=e, alpha=alpha, t=t):
-                base = sem(e, c.derive(labels={k: w for k, w in c.labels.items() if k != label.count()}), r)
+            prev = ctx.labels.get(label.count())
+
+            def ov(c, r, e=e, alpha=alpha, t=t, prev=prev, label=label):
+                if prev is not None:
+                    # an enclosing derivative w.r.t. the same variable already shifted it
+                    base = prev(c, r)
+                else:
+                    base = sem(e, c.derive(labels={k: w for k, w in c.labels.items() if k != label.count()}), r)
                 if alpha == ():
                     return base + t
                 b = base.copy()
@@ -959,11 +965,16 @@ def _variable_derivative(o, ctx, rho):
         elif tn in ("Coefficient", "Constant"):
             outer = ctx
 
-            def ovc(c, alpha=alpha, t=t):
+            prevc = ctx.coef_value_override.get(v)
+
+            def ovc(c, alpha=alpha, t=t, prevc=prevc):
                 # value of the coefficient itself (not its derivatives) is shifted
-                o2 = dict(c.coef_value_override)
-                o2.pop(v, None)
-                base = sem(v, c.derive(coef_value_override=o2), {})
+                if prevc is not None:
+                    base = prevc(c)
+                else:
+                    o2 = dict(c.coef_value_override)
+                    o2.pop(v, None)
+                    base = sem(v, c.derive(coef_value_override=o2), {})
                 if alpha == ():
                     return base + t
                 b = base.copy()
